@@ -1,6 +1,6 @@
 (* C08 — shape of the generated cases and the two executable verdicts. No proofs. *)
 From VLib Require Import CaseLib.
-From C08 Require Import Model ModelGen.
+From C08 Require Import Model ModelGen ModelPool.
 
 Definition all_names : list fname := [Docs; Meta; SdocsTmp; Sdocs; IndexTmp; Index].
 
@@ -110,7 +110,17 @@ Inductive case :=
 | CGenLIDs (cap : N) (fields : list (list N)) (fl : list nat) (pers : option nat) (impl_tr : list lblock) (impl_err : bool)
 | CGenIDs (size n : N) (fl : list nat) (pers : option nat) (impl_tr : list N) (impl_err : bool)
 | CGenTokens (rbs : N) (fields : list (N * N)) (fl : list nat) (pers : option nat) (impl_tr : list tblock) (impl_err : bool)
-| CGenTable (fields : list (bool * N)) (fl : list nat) (pers : option nat) (impl_tr : list (nat * N)) (impl_err : bool).
+| CGenTable (fields : list (bool * N)) (fl : list nat) (pers : option nat) (impl_tr : list (nat * N)) (impl_err : bool)
+(* pool pressure (round 6): the real writeSealedFraction writes the blocks [blocks] (compress requested?, stored
+   compressed?) through disk.BlocksWriter.WriteBlock while another user of the shared bytespool runs at the
+   scheduling point between compression and Write (the Seek call) as [sched] says.  impl: what the real
+   IndexReader (header -> registry -> block, decompressed) read back for every block: [CZ k] = stored
+   compressed and equal to the payload handed to WriteBlock for block k, [CRaw k] = stored as is and equal,
+   [CPoison 0] = anything else (does not decompress / other bytes) *)
+| CPool (blocks : list pblk) (sched : list pev) (impl : list pcontent)
+(* the index written under pool pressure published as <fraction>.index and the store restarted on the
+   directory.  impl: how the fraction was loaded, every document fetched and found by every token query *)
+| CPoolServe (skip : bool) (kind : lkind) (served : bool).
 
 Definition lblock_eqb (a b : lblock) : bool :=
   (lb_lids a =? lb_lids b)%N && (lb_pieces a =? lb_pieces b)%N && Bool.eqb (lb_last a) (lb_last b)
@@ -188,6 +198,12 @@ Definition case_agrees (c : case) : bool :=
       gen_agrees tblock_eqb (gen_tokens rbs fields (oracle_of fl pers)) impl_tr impl_err
   | CGenTable fields fl pers impl_tr impl_err =>
       gen_agrees (pair_eqb Nat.eqb N.eqb) (Some (gen_token_table fields (oracle_of fl pers))) impl_tr impl_err
+  | CPool blocks sched impl =>
+      let s := write_blocks blocks sched in
+      finished s && list_eqb pcontent_eqb (p_out s) impl
+  | CPoolServe _ kind served =>
+      (* a finished fault-free seal leaves a complete index: loaded as sealed, everything served (Model.v) *)
+      lkind_eqb kind LSealed && served
   end.
 
 Definition no_publish (ops : list op) : bool :=
@@ -235,6 +251,9 @@ Definition case_spec_ok (c : case) : bool :=
   | CGenIDs _ _ fl pers impl_tr impl_err => propagated_b (oracle_of fl pers) (length impl_tr) impl_err
   | CGenTokens _ _ fl pers impl_tr impl_err => propagated_b (oracle_of fl pers) (length impl_tr) impl_err
   | CGenTable _ fl pers impl_tr impl_err => propagated_b (oracle_of fl pers) (length impl_tr) impl_err
+  (* every block of the index holds the bytes the sealer produced for it *)
+  | CPool blocks _ impl => list_eqb pcontent_eqb impl (expect_from 0 blocks)
+  | CPoolServe _ kind served => served && (lkind_eqb kind LSealed || lkind_eqb kind LActive)
   end.
 
 Definition diff_indices (l : list case) : list nat := bad_indices (fun c => negb (case_agrees c)) l.
